@@ -305,12 +305,39 @@ fn history_check(case: &Case) -> Verdict {
     Verdict::pass(compared >= 1 && case.xs != case.ys, vec![spec.name().to_string()])
 }
 
+/// ultra-long runs (past 2^16 and 2^17 updates) of the four combinators over (Sma(3), Max(5)) / (Ema(4), Roc(2)); ints = [op, 0, seed, len, shape]
+fn ultra_cases(tier: Tier) -> Vec<Case> {
+    let len = tier.pick(135_000usize, 1_100_000usize);
+    let mut out = vec![];
+    for op in 0..4i64 {
+        for (ci, (a, b)) in [(Spec::Sma(echo(), 3), Spec::Max(echo(), 5)), (Spec::Ema(echo(), 4), Spec::Sma(echo(), 2))].into_iter().enumerate() {
+            out.push(Case { spec: Some(a), spec2: Some(b), ints: vec![op, 0, 0xC14_0000 + 31 * op + ci as i64, len as i64, (op + ci as i64) % 4], a: Rat(1, 1), ..Default::default() });
+        }
+    }
+    out
+}
+fn ultra_check(case: &Case) -> Verdict {
+    let (a, b) = (case.spec(), case.spec2.as_ref().unwrap());
+    let op = case.ints[0];
+    let (seed, len, shape) = (case.ints[2] as u64, case.ints[3] as usize, case.ints[4]);
+    let id = format!("C14/{}/pointwise|f64", OPS[op as usize]);
+    // positive inputs: the divisor child (an average or a maximum of positive values) is never 0
+    let xs: Vec<f64> = gen::ultra_stream(seed, len, shape).into_iter().map(|k| k.abs().max(1) as f64 / 8.0).collect();
+    match guarded(|| run_binary::<f64>(op, a, b, &xs)) {
+        Err(p) => Verdict::fail(format!("{id}|panic"), format!("{}: {p}", mk_binary(op, a, b).show())),
+        Ok(Err(m)) if m.starts_with("DISCARD") => Verdict::Discard("divisor child produced 0".into()),
+        Ok(Err(m)) => Verdict::fail(format!("{id}|value"), format!("{}: {m} (stream: |ultra_stream(seed {seed}, len {len}, shape {shape})| max 1, grid 1/8)", mk_binary(op, a, b).show())),
+        Ok(Ok((both, differ, _))) => Verdict::pass(both >= 70_000 && differ >= 1, vec![format!("shape_{shape}")]),
+    }
+}
+
 pub fn clauses() -> Vec<Clause> {
     let mut v = vec![];
     let crule = "children drawn from Echo, Constant and every unary view over Echo (windows 1..12, above listed-finding thresholds); grammar stream of 0..4N+10 values (positive where Drawdown/LnReturn/the divisor need it); scalars f64, f32 (bit-exact, zeros of either sign equal) and Q (exact equality).";
     for (i, op) in OPS.iter().enumerate() {
         v.push(Clause::generated("C14", format!("C14/{op}/pointwise"), format!("{crule} Stand-alone twins of both children run beside the combinator; after every update the result must be a {} b of the twins' outputs, and None unless both are present. Non-trivial: >= 3 steps with both present and a != b at some step.", ["+", "-", "*", "/"][i]), 2000, 60_000, binary_case(i), binary_check).with_shard(250));
     }
+    v.push(Clause::enumerated("C14", "C14/ultra/enumerated", "Enumerated: Add, Subtract, Multiply, Divide over (Sma(3), Max(5)) and (Ema(4), Sma(2)), 135 000 positive values (thorough 1.1e6; past 2^16 and 2^17 updates) on the 1/8 grid, f64; stand-alone twins of both children beside the combinator, result compared after every update.", ultra_cases, ultra_check).with_shard(2));
     v.push(Clause::generated("C14", "C14/unary/pointwise", format!("{crule} Tanh = tanh(child), GTE = if child >= clip {{child}} else {{clip}}, LTE dually, Echo = latest input, Constant = its constant before and after any update; clip taken from the stream's own values so that child == clip occurs. Non-trivial: >= 3 steps with the child present and, for GTE/LTE, both sides of the clip taken."), 4000, 100_000, unary_case(), unary_check).with_shard(400));
     v.push(Clause::generated("C14", "C14/history_independence", "children Sma(n1) and Max(n2) over Echo, two histories with different prefixes and a common suffix; at every step where the children's outputs agree bit for bit the combinator / Tanh / GTE / LTE result must agree bit for bit. Non-trivial: prefixes differ and at least one such step.", 2000, 40_000, history_case(), history_check).with_shard(400));
     v
